@@ -100,7 +100,14 @@ func genVersionsCase(r *rand.Rand, cfg Cfg, op string, big bool) Case {
 		if (op == "difflinks" || op == "diff") && r.Intn(3) == 0 {
 			ld = "isoload" // each version on a store of its own that holds only its nodes
 		}
-		ops = append(ops, fmt.Sprintf("%s %d 1", ld, a), fmt.Sprintf("%s %d 2", ld, b), fmt.Sprintf("%s 1 2", op))
+		ops = append(ops, fmt.Sprintf("%s %d 1", ld, a), fmt.Sprintf("%s %d 2", ld, b))
+		if ld == "load" && r.Intn(4) == 0 {
+			// one side is a clone of the loaded version that was persisted again, unmodified (still
+			// the same version, held through another tree object)
+			ops = append(ops, "clone 1 3", fmt.Sprintf("root 3 %d", nroot), fmt.Sprintf("%s 3 2", op), fmt.Sprintf("%s 2 3", op))
+			nroot++
+		}
+		ops = append(ops, fmt.Sprintf("%s 1 2", op))
 		if op == "difflinks" && r.Intn(3) == 0 {
 			// the same diff with a link callback that stops it, or fails, after a few events
 			ops = append(ops, fmt.Sprintf("%s 1 2 %d", pick(r, []string{"difflinksstop", "difflinkserr"}), r.Intn(6)))
